@@ -2,8 +2,10 @@
   C03 — loader discipline and resolution invariants (resolve.go).
   Property theorems only; helper lemmas: JSV/Proofs/ResInv.lean (invariants threaded through
   resolveDoc / resolveRefsLoop / resolveRef by open recursion + induction on fuel), ResRefs.lean,
-  ResKnown.lean, ResMono.lean, ResUri.lean; for the designation theorems (last section; the
-  declarative side is JSV/Spec/Designate.lean) ResTree.lean, ResDesig.lean, ResDesigRefs.lean.
+  ResKnown.lean, ResMono.lean, ResUri.lean; for the designation theorems (the
+  declarative side is JSV/Spec/Designate.lean) ResTree.lean, ResDesig.lean, ResDesigRefs.lean; for the
+  converse (a reference that designates nothing is an error, and nothing else is: hypotheses in
+  JSV/Spec/WellFormed.lean) ResComplete.lean, ResCompleteUris.lean, ResCompleteRefs.lean, ResCompleteWF.lean.
 -/
 import JSV.Proofs.ResInv
 import JSV.Proofs.ResRefs
@@ -12,6 +14,8 @@ import JSV.Proofs.ResMono
 import JSV.Proofs.ResUri
 import JSV.Proofs.ResDesigRefs
 import JSV.Proofs.ResDesigMulti
+import JSV.Proofs.ResCompleteRefs
+import JSV.Proofs.ResCompleteWF
 namespace JSV.C03
 open JSV Go Go.RInv
 
@@ -579,6 +583,138 @@ example : ¬ LoaderFresh cxEnv 0 := by
   exact (h _ rfl).2 "http://a/x" "http://a/y" 3 3 (by decide) rfl rfl 3 (reach_root _ 3) (reach_root _ 3)
 
 end designation_examples
+
+
+/-! ## The converse: Resolve fails when a reference designates nothing — and, on a well-formed document, only then
+
+Soundness above says: success ⇒ every reference has the designated target.  Here: a reference that designates
+nothing ⇒ no success (`dangling_ref_is_error`), and on a self-contained document (no Loader) that satisfies the
+well-formedness conditions W1–W6 of JSV/Spec/WellFormed.lean — one per other reason resolve.go has to return an
+error — every reference designating something ⇒ success (`resolve_complete_selfcontained`); together
+`resolve_ok_iff_selfcontained`.  `topDoc env root` is the document read under the draft its `$schema` selects. -/
+
+section completeness
+open Spec RComp
+
+/-- Without a Loader: if some `$ref` or `$dynamicRef` of `root.all()` designates no subschema of the document
+    (`b` = the parsed BaseURI option), Schema.Resolve does not succeed; it returns an error for every positive
+    fuel (never a panic, never another target). -/
+theorem dangling_ref_is_error (env : Env) (hl : env.loader = none) (fuel : Nat) (root : NodeId) (base : String)
+    (id : NodeId) (n : Node) (hid : id ∈ allNodes env.st (env.st.size + 2) [root]) (hn : env.st.get? id = some n)
+    (hdang : ∀ b, retrievalOf base = .ok b →
+      (n.ref ≠ "" ∧ ¬ ∃ t, (topDoc env root).Designates b id n.ref t) ∨
+      (n.dynamicRef ≠ "" ∧ ¬ ∃ t, (topDoc env root).Designates b id n.dynamicRef t)) :
+    (∀ rs, Go.resolve env fuel root base ≠ .ok rs) ∧ (1 ≤ fuel → Go.resolve env fuel root base = .err) := by
+  have hno : ∀ rs, Go.resolve env fuel root base ≠ .ok rs := by
+    intro rs h
+    obtain ⟨b, hb, hall⟩ := resolve_designates_noloader env hl fuel root base rs h
+    obtain ⟨h1, h2⟩ := hall id hid n hn
+    rcases hdang b hb with ⟨hne, hnot⟩ | ⟨hne, hnot⟩
+    · exact hnot (h1 hne)
+    · exact hnot (h2 hne)
+  refine ⟨hno, fun hfuel => ?_⟩
+  cases hr : Go.resolve env fuel root base with
+  | ok rs => exact absurd hr (hno rs)
+  | err => rfl
+  | panic => exact absurd hr (resolve_ne_panic_noloader env hl fuel root base)
+  | fuel => exact absurd hr (RTot.resolve_ne_fuel env fuel root base (by rw [hl]; simpa using hfuel))
+
+/-- With a Loader that satisfies the freshness assumption: if a `$ref` of `root.all()` designates nothing among
+    any documents the resolution may touch (`docs`: the root document under the retrieval URI `b`, Loader
+    documents under the URIs they are served for), Schema.Resolve does not succeed; when moreover the documents are
+    disjoint (`docsDisjoint`, decidable) and the fuel exceeds the number of Loader entries, it returns an error. -/
+theorem dangling_ref_is_error_among (env : Env) (fuel : Nat) (root : NodeId) (base : String)
+    (hfresh : LoaderFresh env root)
+    (id : NodeId) (n : Node) (hid : id ∈ allNodes env.st (env.st.size + 2) [root]) (hn : env.st.get? id = some n)
+    (hne : n.ref ≠ "")
+    (hdang : ∀ b docs draft, retrievalOf base = .ok b →
+      (∀ e ∈ docs, e.1.st = env.st ∧ ((e.1.root = root ∧ e.2 = b) ∨
+        ∃ tbl, env.loader = some tbl ∧ Json.lookup (Uri.toString e.2) tbl = some (.doc e.1.root))) →
+      ¬ ∃ t, DesignatesAmong docs ⟨env.st, draft, root⟩ b id n.ref t) :
+    (∀ rs, Go.resolve env fuel root base ≠ .ok rs) ∧
+    (RTot.docsDisjoint env root = true → (env.loader.getD []).length + 1 ≤ fuel →
+      Go.resolve env fuel root base = .err) := by
+  have hno : ∀ rs, Go.resolve env fuel root base ≠ .ok rs := by
+    intro rs h
+    obtain ⟨b, docs, hb, hdocs, hall⟩ := resolve_sound env fuel root base rs hfresh h
+    obtain ⟨info, t, _, _, hd⟩ := (hall id hid n hn).1 hne
+    exact hdang b docs rs.draft hb hdocs ⟨t, hd⟩
+  refine ⟨hno, fun hdis hfuel => ?_⟩
+  cases hr : Go.resolve env fuel root base with
+  | ok rs => exact absurd hr (hno rs)
+  | err => rfl
+  | panic => exact absurd hr (RTot.resolve_ne_panic env fuel root base hdis)
+  | fuel => exact absurd hr (RTot.resolve_ne_fuel env fuel root base hfuel)
+
+/-- COMPLETENESS, self-contained documents.  No Loader; then the following are ALL the reasons resolve.go has to
+    fail, so a document that passes them is resolved, by every positive fuel:
+
+    * W1 the BaseURI option is empty or parses, W2 and has no fragment;
+    * W3 `structureOk`: the subschemas form a tree without nil pointers (checkStructure);
+    * W4 `localOk`: checkLocal accepts every subschema;
+    * W5 `IdsOk`: every `$id` that is read parses, has no fragment in 2020-12, and the URI of every resource it
+      establishes is absolute;
+    * W6 `UniqueIds`: no URI identifies two resources (NOT checked by resolve.go — see the counterexample
+      `dupStore` below: without it the resolver may look in the wrong one of two homonymous resources);
+    * D  every `$ref` and every `$dynamicRef` of `root.all()` designates a subschema of the document (in
+      particular its fragment-less URI identifies a resource of the document: no reference leaves it). -/
+theorem resolve_complete_selfcontained (env : Env) (hl : env.loader = none) (fuel : Nat) (hfuel : 1 ≤ fuel)
+    (root : NodeId) (base : String) (b : Uri.Url)
+    (W1 : retrievalOf base = .ok b) (W2 : b.fragment = "")
+    (W3 : structureOk env.st root = true) (W4 : localOk env root = true)
+    (W5 : (topDoc env root).IdsOk b) (W6 : (topDoc env root).UniqueIds b)
+    (D : (topDoc env root).RefsDesignate b (allNodes env.st (env.st.size + 2) [root])) :
+    ∃ rs, Go.resolve env fuel root base = .ok rs :=
+  resolve_ok_of_wf env hl fuel hfuel root base b W1 W2 W3 W4 W5 W6 D
+
+/-- the same with the Bool checkers for W5, W6 (sufficient, evaluable) -/
+theorem resolve_complete_selfcontained_checked (env : Env) (hl : env.loader = none) (fuel : Nat) (hfuel : 1 ≤ fuel)
+    (root : NodeId) (base : String) (b : Uri.Url)
+    (W1 : retrievalOf base = .ok b) (W2 : b.fragment = "")
+    (W3 : structureOk env.st root = true) (W4 : localOk env root = true)
+    (W5 : (topDoc env root).idsOk b = true) (W6 : (topDoc env root).uniqueIds b = true)
+    (D : (topDoc env root).RefsDesignate b (allNodes env.st (env.st.size + 2) [root])) :
+    ∃ rs, Go.resolve env fuel root base = .ok rs :=
+  resolve_ok_of_wf env hl fuel hfuel root base b W1 W2 W3 W4 (idsOk_sound _ _ W5) (uniqueIds_sound _ _ W6) D
+
+/-- the conditions W1–W5 are necessary, whatever the Loader: a successful Resolve was given a well-formed document -/
+theorem resolve_ok_wellformed (env : Env) (fuel : Nat) (root : NodeId) (base : String) (rs : Resolved)
+    (h : Go.resolve env fuel root base = .ok rs) :
+    ∃ b, retrievalOf base = .ok b ∧ b.fragment = "" ∧ structureOk env.st root = true ∧
+      localOk env root = true ∧ (topDoc env root).IdsOk b :=
+  resolve_wf_of_ok env fuel root base rs h
+
+/-- Success exactly when well-formed and every reference designates something: for a document without Loader in
+    which no URI identifies two resources (W6), and positive fuel. -/
+theorem resolve_ok_iff_selfcontained (env : Env) (hl : env.loader = none) (fuel : Nat) (hfuel : 1 ≤ fuel)
+    (root : NodeId) (base : String)
+    (W6 : ∀ b, retrievalOf base = .ok b → (topDoc env root).UniqueIds b) :
+    (∃ rs, Go.resolve env fuel root base = .ok rs) ↔
+    ∃ b, retrievalOf base = .ok b ∧ b.fragment = "" ∧ structureOk env.st root = true ∧ localOk env root = true ∧
+      (topDoc env root).IdsOk b ∧
+      (topDoc env root).RefsDesignate b (allNodes env.st (env.st.size + 2) [root]) := by
+  constructor
+  · rintro ⟨rs, h⟩
+    obtain ⟨b, hb, h2, h3, h4, h5⟩ := resolve_wf_of_ok env fuel root base rs h
+    obtain ⟨b', hb', hD⟩ := resolve_designates_noloader env hl fuel root base rs h
+    rw [hb] at hb'
+    simp only [Res.ok.injEq] at hb'
+    subst hb'
+    exact ⟨b, hb, h2, h3, h4, h5, hD⟩
+  · rintro ⟨b, hb, h2, h3, h4, h5, hD⟩
+    exact resolve_ok_of_wf env hl fuel hfuel root base b hb h2 h3 h4 h5 (W6 b hb) hD
+
+/-- otherwise (positive fuel, no Loader) the outcome is an error: never a panic, never out of fuel -/
+theorem resolve_err_iff_selfcontained (env : Env) (hl : env.loader = none) (fuel : Nat) (hfuel : 1 ≤ fuel)
+    (root : NodeId) (base : String) :
+    Go.resolve env fuel root base = .err ↔ ¬ ∃ rs, Go.resolve env fuel root base = .ok rs := by
+  cases hr : Go.resolve env fuel root base with
+  | ok rs => simp
+  | err => simp
+  | panic => exact absurd hr (resolve_ne_panic_noloader env hl fuel root base)
+  | fuel => exact absurd hr (RTot.resolve_ne_fuel env fuel root base (by rw [hl]; simpa using hfuel))
+
+end completeness
 
 /-! ## Tests of the URL model against RFC 3986 §5.4 (reference resolution examples) -/
 
